@@ -107,6 +107,9 @@ func rulesC19(cx *Ctx) []Obligation {
 				case *types.Slice:
 					walk(u.Elem(), path+"[]", d+1)
 				case *types.Array:
+					// encoding/json fills a Go array from a shorter JSON list with zero values and silently drops the
+					// surplus of a longer one: `[a]` and `[a, 0]` would decode alike
+					badLeaves = append(badLeaves, fmt.Sprintf("%s is a fixed-size array [%d] (short or long JSON lists are accepted silently)", path, u.Len()))
 					walk(u.Elem(), path+"[]", d+1)
 				case *types.Pointer:
 					walk(u.Elem(), path, d+1)
@@ -124,7 +127,7 @@ func rulesC19(cx *Ctx) []Obligation {
 			}
 			walk(t, name, 0)
 			key := "C19/O19.2/leaf-types/" + name
-			desc := "every leaf of the raw decoder struct is uint64, string or bool, so encoding/json itself refuses negative, fractional and over-64-bit numbers and scalars where lists are expected"
+			desc := "every leaf of the raw decoder struct is uint64, string or bool and every list is a slice (no fixed-size array), so encoding/json itself refuses negative, fractional and over-64-bit numbers and scalars where lists are expected, and a list of the wrong arity is not padded or truncated silently"
 			if len(badLeaves) > 0 {
 				obs = append(obs, bad(key, desc, "leaves of other types: "+strings.Join(badLeaves, ", ")))
 			} else {
